@@ -302,7 +302,10 @@ class Server(object):
             d["skey"] = (sk.child("id").data, sk.child("value").data, sk.child("signature").data)
             for k in node.child("list").children:
                 kid, kval = k.child("id").data, k.child("value").data
-                # a key id uploaded again (its first upload was not confirmed to the client) replaces the stored one
+                # a key id uploaded again (its first upload was not confirmed to the client) replaces the stored one; an id
+                # that has already been handed out to somebody is used up and is not taken back
+                if kid in d.setdefault("handed", set()):
+                    continue
                 d["pre"] = [x for x in d["pre"] if x[0] != kid]
                 d["pre"].append((kid, kval))
             d["asked"] = False
@@ -323,6 +326,7 @@ class Server(object):
                                           Node("signature", None, None, d["skey"][2])])]
                 if d["pre"]:
                     kid, kval = d["pre"].pop(0)
+                    d.setdefault("handed", set()).add(kid)
                     ch.append(Node("key", None, [Node("id", None, None, kid), Node("value", None, None, kval)]))
                     self.stat("prekey_handed_out")
                     self.w.on_prekey_handout(u["jid"], kid, kval, jid)
